@@ -3,6 +3,8 @@
 1. TLC checks MDRun exhaustively over a cadence lattice (no crash; and one crash for the
    resumed variant) with the design constants: CadenceExact = H5Equal, XyzExactlyOnce,
    ScreenExact, CkptCadence, CursorAtCap (capacity = rows written).
+   The nonadiabatic stream is exercised with real surface-hopping runs (fresh and resumed, cadences not
+   dividing the run length or the checkpoint step).
 2. The lattice is exported from TLC; sampled (quick) or swept (thorough) points are replayed on
    the real run loop (stub electronic structure; engines basic / Langevin / XL-BOMD; molid
    subsets of a three-row batch; fresh and resumed), the hook traces + final disk projection
@@ -102,6 +104,16 @@ def main(tier):
         # /data and the TDM cadence are due); resumed TDM runs belong to C10.
         for n, cfg in enumerate(S.sample(rng, [c for c in cfgs_tdm if c["cad"]["tdm"] > 0], n_tdm)):
             jobs.append((S.case_from_cfg(cfg, engine="basic", system="h2o_h2", molid=[0, 1]), []))
+        # nonadiabatic stream: real surface-hopping runs (real excited states), fresh and resumed, cadences that do not divide
+        # the run length / the checkpoint step
+        fssh = {"excited_states": {"n_states": 2, "method": "cis"}, "scf_eps": 1.0e-9}
+        na_cfgs = [dict(steps=6, cad=dict(data=1, coordinates=2, velocities=0, forces=0, na=3, tdm=0), xyz=0, ckpt=2, print=1),
+                   dict(steps=5, cad=dict(data=2, coordinates=0, velocities=1, forces=0, na=2, tdm=0), xyz=2, ckpt=3, print=0)]
+        if tier != "quick":
+            na_cfgs += [dict(steps=7, cad=dict(data=3, coordinates=1, velocities=0, forces=2, na=na, tdm=0), xyz=0, ckpt=ck, print=1) for na in (1, 2, 3, 4, 5) for ck in (2, 3)]
+        for cfg in na_cfgs:
+            jobs.append((S.case_from_cfg(cfg, engine="fssh", system="h2co", molid=[0], params=fssh, stub=False, tol=1.0e-6), []))
+            jobs.append((S.case_from_cfg(cfg, engine="fssh", system="h2co", molid=[0], params=fssh, stub=False, tol=1.0e-6), [["next", cfg["ckpt"] - 1, "soft"]]))
         for n, (case, _) in enumerate(jobs):
             case["id"] = "c%05d" % n
         results = S.run_all(jobs, scratch)
@@ -133,7 +145,7 @@ def main(tier):
                 "stub electronic structure (analytic pair potential) stands in for the SCF; the run loop, writers, checkpoint and resume code are the real ones",
                 "row values are compared bitwise with an all-cadences-one reference run of the same seed",
                 "screen and checkpoint streams: exactly the positive multiples (no t=0 entry demanded)",
-                "nonadiabatic stream is covered by the real-ES surface-hopping runs of C10, not here",
+                "nonadiabatic stream: real surface-hopping runs on H2CO (CIS, 2 states), fresh and resumed, values within 1e-6 of the reference",
             ],
         )
     finally:
